@@ -12,7 +12,7 @@ func init() { register("C19", checkC19) }
 
 func checkC19(c *Ctx) {
 	c.Rule("R1 taint: no string computed from the content of an evaluated cty value (AsString/AsBigFloat/GoString/%v of a value, a map or object key, attribute names of an evaluated value's type, anything derived from these through formatting, across calls) is stored into hcl.Diagnostic.Summary or .Detail in hcl, hclsyntax, json, hcldec, ext/dynblock")
-	fns := c.P.pkgFuncs("hcl", "hclsyntax", "json", "hcldec", "ext/dynblock")
+	fns := c.P.pkgFuncs(c.Scope("hcl", "hclsyntax", "json", "hcldec", "ext/dynblock")...)
 	// construction code (scanner, parser) only sees source text
 	var scope []*ssa.Function
 	for _, f := range fns {
